@@ -2,12 +2,12 @@
    emission models (Model/Enc.v, Model/EncIndent.v) then turn into text.
    Same fragment as Model/Decode.v: bool, integers of every width, strings,
    interface{} holding JSON-natural values, pointers, slices, arrays, maps with
-   string keys (members in the order of their keys), structs.  Leaves are
+   string keys (members in the order of their keys), structs, []byte (base64).  Leaves are
    written by the leaf encoders of C16 (AppendInt / AppendUint) and C17
    (AppendString, HTML escaping and UTF-8 normalisation on: Marshal's defaults).
    The harness runs this beside go-json's Marshal and encoding/json's (op c01.typed). *)
 From Coq Require Import NArith ZArith List Bool.
-From GJ Require Import Base.Bytes Spec.Json Gen.Tables Gen.Swar Model.Int Model.StrEnc Model.Enc Model.Decode.
+From GJ Require Import Base.Bytes Spec.Json Gen.Tables Gen.Swar Model.Int Model.StrEnc Model.Enc Model.Decode Model.Base64.
 Import ListNotations.
 Open Scope N_scope.
 
@@ -54,6 +54,8 @@ Fixpoint encj (t : ty) (v : gv) : jv :=
                | (k, ft) :: fr, x :: lr => (esc k, false, encj ft x) :: fields fr lr
                | _, _ => []
                end) fs l)
+  | TBytes, VNil => JNULL
+  | TBytes, VSlice l => JLeaf (TStr (b64enc (map (fun x => match x with VInt z => Z.to_N z | _ => 0 end) l)))
   | _, _ => JBAD
   end.
 
